@@ -54,7 +54,7 @@ def thrClauses (s : State) (t : Tid) : List (String × Bool) :=
   let e (r : Ref) := s.heap r
   let lt (r : Ref) := decide (r < s.nHeap)
   let isLookup := match th.op with | .get _ | .pick _ | .forEach => true | _ => false
-  [ ("todo", th.todo.all (fun r => lt r && (th.op != .gc || (e r).st != .loading))),
+  [ ("todo", th.todo.all (fun r => lt r && (th.op == .close || (e r).st != .loading))),
     ("pc", match th.pc with
       | .getWaitClose r true | .loadBegin r =>
         lt r && (e r).loader == some t && (e r).st == .loading && (e r).pending == none && !(e r).loadDone &&
@@ -75,6 +75,7 @@ def thrClauses (s : State) (t : Tid) : List (String × Bool) :=
       | .inClose r i | .inTry r i => lt r && (e r).closer == some t && (e r).st == .closing && (e r).value == some i
       | .trySetClosing r => lt r && (e r).st != .loading
       | .done res => res != .panic
+      | .closeCollect => th.op == .close
       | _ => true),
     -- layer C
     ("stale_closed", th.stale.all (fun i => (s.inst i).st == .closed)),
